@@ -33,7 +33,8 @@ def hs_wrap(t, body):
 
 def gen_hs(rng, within=True):
     k = rng.choice(('ch', 'ch', 'sh', 'sh', 'sh13', 'cke', 'fin', 'hr', 'unsupported'))
-    rnd = rng.randbytes(32 if within or rng.random() < .5 else rng.choice((0, 31, 33)))
+    # randoms carry protocol magic values / source literals now and then (the HelloRetryRequest digest, downgrade sentinels)
+    rnd = enc.rbytes(rng, 32, .2) if within or rng.random() < .5 else rng.randbytes(rng.choice((0, 31, 33)))
     ver = rng.choice((0x0000, 0x0002, 0x0200, 0x0300, 0x0300, 0x0301, 0x0302, 0x0303, 0x0303, 0x0304, 0x7f12, 0xfeff, 0xfefd, rng.randrange(65536)))   # every version with and without extensions
     sid = None if rng.random() < .4 else rng.randbytes(rng.choice((1, 2, 32)) if within else rng.choice((0, 1, 32, 33, 255, 256)))
     ext = None if rng.random() < .4 else rng.randbytes(rng.choice((0, 1, 40, 300)) if within or rng.random() < .7 else 65536)
